@@ -532,7 +532,7 @@ func gen(o hreg.Opts, w *bufio.Writer) error {
 		st.Add("op", kind)
 		fmt.Fprintf(w, kind+f+"\n", a...)
 	}
-	rounds := o.Pick(2, 12)
+	rounds := o.Pick(4, 40)
 	for r := 0; r < rounds; r++ {
 		for _, d := range registry {
 			nvals := 1 + rng.Intn(5)
@@ -564,6 +564,7 @@ func gen(o hreg.Opts, w *bufio.Writer) error {
 					calls = append(calls, m)
 				case "unclassified":
 					emit("unclassified", " %s", m.Name)
+					st.Add("unclassified-method", d.key+"."+m.Name)
 				}
 			}
 			doGets := func() {
@@ -791,8 +792,10 @@ func (s *session) step(f []string) string {
 		}
 		sort.Strings(ns)
 		return "ok " + strings.Join(ns, ",")
-	case f[0] == "unclassified":
-		return "unclassified-method"
+	case f[0] == "unclassified" && len(f) == 2:
+		// a method of a shape this harness does not know how to drive: not exercised here (recorded in the
+		// input distribution); the table theorems still demand an expectation for it if it accesses a field
+		return "ok not-driven"
 	case f[0] == "get" && len(f) == 2:
 		m := rv.MethodByName(f[1])
 		if !m.IsValid() || m.Type().NumIn() != 0 || m.Type().NumOut() != 2 {
@@ -1355,7 +1358,7 @@ func mutate(h *handle, a []string) string {
 
 func genCopies(o hreg.Opts, rng *rand.Rand, w *bufio.Writer) {
 	st := o.Stats
-	n := o.Pick(10, 120)
+	n := o.Pick(25, 500)
 	forks := []string{"phase0", "altair", "bellatrix", "capella", "deneb"}
 	for i := 0; i < n; i++ {
 		fmt.Fprintln(w, "reset")
